@@ -455,6 +455,40 @@ def s6b(ctx, rep):
         raise AnchorError(f"C06-S6: {n} value lists appended to the grid (4 confirmed)")
 
 
+def s4b(ctx, rep):
+    """guard table for 'no repeats' (found thin by the generic mutation audit)"""
+    from .common import require_guard
+    P = ctx.P
+    f = P.method("ModelBasedSearcher", "_get_config_not_modelbased")
+    cfg = cfg_of(f)
+    rv = var_from_call(f, "get_config")
+    if rv is None:
+        raise AnchorError("_get_config_not_modelbased: `_config = self._random_searcher.get_config()` not found")
+    acc = [n.id for n in cfg.nodes if n.kind == "stmt" and isinstance(n.ast, ast.Assign) and isinstance(n.ast.value, ast.Name) and n.ast.value.id == rv]
+    require_guard(ctx, rep, "S4", f, "ModelBasedSearcher._get_config_not_modelbased: a random configuration is accepted | it is not excluded", acc,
+                  [("not exclusion_candidates.contains(config)", lambda a: a[0] == "truth" and a[1].endswith(f".contains({rv})") and a[2] is False)],
+                  "a configuration that is pending, failed or was suggested before is suggested again in the random phase")
+    g = P.method("GridSearcher", "_next_candidate_on_grid")
+    cg = cfg_of(g)
+    cand = [U(r.value) for r in returns_of(g) if isinstance(r.value, ast.Name)]
+    if len(set(cand)) != 1:
+        raise AnchorError("GridSearcher._next_candidate_on_grid does not return its candidate variable")
+    drop = [n.id for n in cg.nodes if n.kind == "stmt" and isinstance(n.ast, ast.Assign) and U(n.ast.targets[0]) == cand[0]
+            and isinstance(n.ast.value, ast.Constant) and n.ast.value.value is None and any(l.kind in ("while", "test") for l in cg.nodes)
+            and any(p_.stmt is not None and isinstance(p_.stmt, ast.While) and n.stmt in list(stmts_in(p_.stmt.body)) for p_ in cg.nodes)]
+    require_guard(ctx, rep, "S6", g, "GridSearcher._next_candidate_on_grid: a grid point is skipped | it was already suggested as an initial configuration", drop,
+                  [("self._all_initial_configs.contains(candidate)", lambda a: a[0] == "truth" and a[1].startswith("self._all_initial_configs.contains(") and a[2] is True)],
+                  "grid points that were suggested as initial configurations are suggested again (and all the others are skipped)")
+    h = P.method("BaseSearcher", "_next_initial_config")
+    ch = cfg_of(h)
+    pops = [n.id for n in ch.nodes for x in ch.node_walk(n.id) if isinstance(x, ast.Call) and fn_name(x) == "pop" and "_points_to_evaluate" in U(x.func.value)]
+    require_guard(ctx, rep, "S2", h, "BaseSearcher._next_initial_config: the queue is popped | it is not empty", pops,
+                  [("self._points_to_evaluate", lambda a: (a[0] == "truth" and a[1] == "self._points_to_evaluate" and a[2] is True) or
+                    (a[0] == "lt" and a[1] == "0" and a[2] == "len(self._points_to_evaluate)") or
+                    (a[0] == "le" and a[1] == "1" and a[2] == "len(self._points_to_evaluate)"))],
+                  "initial configurations are never returned (or pop from an empty list raises)")
+
+
 def s7(ctx, rep):
     P = ctx.P
     f = P.method("PopulationBasedTraining", "_explore")
@@ -487,6 +521,7 @@ def run(ctx, rep, tier="quick"):
     s2(ctx, rep)
     s3(ctx, rep)
     s4(ctx, rep)
+    s4b(ctx, rep)
     s5(ctx, rep)
     s5b(ctx, rep)
     s6(ctx, rep)
